@@ -379,6 +379,31 @@ func init() {
 				}
 			}
 		}
+		// a `format` ANNOTATION next to the bounds of a numeric member (OpenAPI spellings: float, double, int32, int64, …):
+		// it says nothing about the value's range or divisibility, the stated bounds stay in force
+		for fi, format := range []string{"float", "double", "int32", "int64", "uint8", "decimal", "byte", "integer"} {
+			for _, ty := range []string{"number", "integer"} {
+				for ki, kws := range []M{{"minimum": -2, "maximum": 3}, {"exclusiveMinimum": 0}, {"maximum": 2, "exclusiveMaximum": true}, {"multipleOf": 2}, {"minimum": 1, "multipleOf": 3}} {
+					pos := AllPositions[(fi+ki)%len(AllPositions)]
+					prop := M{"type": ty, "format": format}
+					for k, v := range kws {
+						prop[k] = v
+					}
+					if pos == PosDefault && !withValidDefault(prop, ty, func(v float64) bool { return sgen.LocalValid(prop, v) }) {
+						continue
+					}
+					schema, mk := fieldProgram(pos, prop)
+					var docs []any
+					for v := -4; v <= 6; v++ {
+						docs = append(docs, mk(v, false))
+					}
+					if ty == "number" {
+						docs = append(docs, mk(-2.5, false), mk(0.5, false), mk(3.5, false))
+					}
+					pcs = append(pcs, baseCase("c05-format-annotation", schema, docs, ty, string(pos), "format="+format))
+				}
+			}
+		}
 		for _, pc := range nearDupCases(c, "c05-near-duplicates") {
 			l := pc.Labels[0]
 			if strings.Contains(l, "minimum") || strings.Contains(l, "maximum") || strings.Contains(l, "multipleOf") || strings.Contains(l, "exclusive") {
